@@ -286,7 +286,14 @@ def run(case):
 
 
 # --------------------------------------------------------------------------- literals
+RUNS_CAP = 3000
+
+
 def _runs_lit(rs):
+    # a correct list of the generated sizes has a few hundred runs at most; a (wrong) observation with more is cut and
+    # marked with a run the model can never produce, so that it still disagrees but cannot exhaust coqc's memory
+    if len(rs) > RUNS_CAP:
+        rs = list(rs[:RUNS_CAP]) + [[-7, -7]]
     return common.listlit("(%s, %s)" % (common.zlit(a), common.zlit(b)) for a, b in rs)
 
 
